@@ -1533,13 +1533,16 @@ impl Gen {
                 self.need("f0");
                 self.need("fv");
                 self.need("f2");
-                let v = self.rng.upto(33);
+                let v = self.rng.upto(35);
                 (
                     match v {
                         // what apply spreads must be a list: a pair chain that ends in something else is not
                         28 => call("apply", vec![sym("+"), call("cons", vec![int(1), int(2)])]),
                         29 => call("apply", vec![sym("fv"), call("cons", vec![int(1), call("cons", vec![int(2), int(3)])])]),
                         30 => call("apply", vec![sym("f2"), int(1), call("cons", vec![int(2), int(3)])]),
+                        // the wrong-typed index is the vector itself, or holds it
+                        33 => call("vector-set!", vec![sym(&vn), sym(&vn), int(0)]),
+                        34 => call("vector-ref", vec![sym(&vn), call("list", vec![int(1), sym(&vn)])]),
                         31 => call("make-vector", vec![Sx::Str("3".into()), int(0)]),
                         32 => call("vector-length", vec![int(5)]),
                         // the wrong-typed argument comes after one that already decides the result
@@ -2142,9 +2145,27 @@ impl Gen {
         self.emit(sx, &format!("fault2:{}:{}:{}", a, b, FAULTS[j].1), vec![], true);
     }
 
+    /// an index or a length that is a number but not an exact integer (the reference model has
+    /// no such numbers: the expected error kind travels in the form's kind)
+    fn inexact_index_fault(&mut self) {
+        let vn = self.ensure_vec();
+        let text = match self.rng.upto(5) {
+            0 => format!("(vector-ref {} 1.0)", vn),
+            1 => format!("(vector-set! {} 0.0 5)", vn),
+            2 => "(make-vector 2.0 0)".to_string(),
+            3 => format!("(vector-ref {} 4/2)", vn),
+            _ => format!("(vector-set! {} 2/2 7)", vn),
+        };
+        self.forms.push(FormRec { text, kind: "faultx:Type".to_string(), roots: vec![], write: false });
+    }
+
     fn fault_transaction(&mut self) {
         if self.rng.chance(1, 12) {
             self.two_failing_operands();
+            return;
+        }
+        if self.rng.chance(1, 14) {
+            self.inexact_index_fault();
             return;
         }
         let kind = self.rng.upto(8);
@@ -2412,6 +2433,34 @@ fn execute_a(case: Value) -> RunResult {
                 return res;
             }
         };
+        if let Some(want) = kind.strip_prefix("faultx:") {
+            // nothing is evaluated by the model: the form must fail with the stated kind before
+            // it has any effect, and the comparisons of the following forms see to the rest
+            let got = real.eval_text(&text);
+            res.log.push(format!("{:>3} [{}] {} => {} | expected an error of kind {}", step, kind, text, got.short(), want));
+            res.count(&format!("fault_fired.{}", want));
+            res.count("fault_context.not-an-exact-integer");
+            let ghead = match &got {
+                Outcome::Error(g) => format!("{:?}", g).split('(').next().unwrap_or("").to_string(),
+                Outcome::Panic(p) => {
+                    res.violation = Some(Violation {
+                        signature: format!("{}/panic/{}", mode, p.signature()),
+                        detail: json!({"step": step, "form": text, "panic": p.message}),
+                    });
+                    break;
+                }
+                Outcome::Value(_) => "".to_string(),
+            };
+            if ghead != want {
+                let sig = if ghead.is_empty() { format!("missed-error/{}", want) } else { format!("wrong-error/{}->{}", want, ghead) };
+                res.violation = Some(Violation {
+                    signature: format!("{}/{}", mode, sig),
+                    detail: json!({"step": step, "form": text, "expected": format!("ERR {}", want), "observed": got.short()}),
+                });
+                break;
+            }
+            continue;
+        }
         let expected_r = m.eval_top(&sx);
         match &expected_r {
             Err(RErr::Budget) => {
